@@ -752,6 +752,21 @@ func (w *wireWalker) stmt(s ast.Stmt) []Op {
 		}
 		return ops
 	case *ast.RangeStmt:
+		// "for _, c := range hp.currencies()" where the helper returns a literal list of field addresses
+		// ([...]*T{&hp.A, &hp.B}): the loop is the sequence of its body over those fields, in that order
+		if fields := w.fieldTable(s.X); len(fields) > 0 {
+			if v, ok := s.Value.(*ast.Ident); ok && v != nil {
+				if o := w.info.Defs[v]; o != nil {
+					var ops []Op
+					for _, f := range fields {
+						w.paths[o] = f
+						ops = append(ops, w.stmts(s.Body.List)...)
+					}
+					delete(w.paths, o)
+					return ops
+				}
+			}
+		}
 		// bind range vars
 		base := w.pathOf(s.X)
 		if v, ok := s.Value.(*ast.Ident); ok && v != nil {
@@ -2144,4 +2159,76 @@ func exitsToElse(ops []Op, kind string) []Op {
 		return head
 	}
 	return ops
+}
+
+// fieldTable: e is a call, on some value v, of a same-package function or method whose whole body is
+// "return [...]*T{&r.F1, &r.F2, …}" (or a slice literal) over its receiver / single parameter r: the paths v.F1, v.F2, …
+func (w *wireWalker) fieldTable(e ast.Expr) []string {
+	call, ok := stripParens(e).(*ast.CallExpr)
+	if !ok {
+		return nil
+	}
+	fn, _ := typeutil.Callee(w.info, call).(*types.Func)
+	if fn == nil || fn.Pkg() == nil || fn.Pkg() != w.pkg.Types {
+		return nil
+	}
+	var fd *ast.FuncDecl
+	for _, f := range w.pkg.Syntax {
+		for _, d := range f.Decls {
+			if x, isFD := d.(*ast.FuncDecl); isFD && w.info.Defs[x.Name] == types.Object(fn) {
+				fd = x
+			}
+		}
+	}
+	if fd == nil || fd.Body == nil || len(fd.Body.List) != 1 {
+		return nil
+	}
+	ret, ok := fd.Body.List[0].(*ast.ReturnStmt)
+	if !ok || len(ret.Results) != 1 {
+		return nil
+	}
+	lit, ok := stripParens(ret.Results[0]).(*ast.CompositeLit)
+	if !ok {
+		return nil
+	}
+	// the value the fields belong to: the receiver or the single argument
+	var formal *ast.Ident
+	var actual ast.Expr
+	if fd.Recv != nil && len(fd.Recv.List) == 1 && len(fd.Recv.List[0].Names) == 1 && len(call.Args) == 0 {
+		formal = fd.Recv.List[0].Names[0]
+		if sel, isSel := stripParens(call.Fun).(*ast.SelectorExpr); isSel {
+			actual = sel.X
+		}
+	} else if fd.Recv == nil && len(call.Args) == 1 && len(fd.Type.Params.List) == 1 && len(fd.Type.Params.List[0].Names) == 1 {
+		formal, actual = fd.Type.Params.List[0].Names[0], call.Args[0]
+	}
+	if formal == nil || actual == nil {
+		return nil
+	}
+	fobj := w.info.Defs[formal]
+	base := w.pathOf(actual)
+	var out []string
+	for _, el := range lit.Elts {
+		ue, isU := stripParens(el).(*ast.UnaryExpr)
+		if !isU || ue.Op != token.AND {
+			return nil
+		}
+		// &r.F (possibly nested selectors)
+		var names []string
+		x := stripParens(ue.X)
+		for {
+			sel, isSel := x.(*ast.SelectorExpr)
+			if !isSel {
+				break
+			}
+			names = append([]string{sel.Sel.Name}, names...)
+			x = stripParens(sel.X)
+		}
+		id, isID := x.(*ast.Ident)
+		if !isID || len(names) == 0 || w.info.Uses[id] != fobj {
+			return nil
+		}
+		out = append(out, base+"."+strings.Join(names, "."))
+	}
+	return out
 }
